@@ -300,6 +300,7 @@ func init() {
 			{"close-with-command-outstanding", nil},
 			{"close-with-commands-queued", nil},
 			{"close-with-commands-queued-behind-a-held-writer", nil},
+			{"callers-give-up-while-their-commands-wait-behind-a-held-writer", nil},
 			{"writer-holds-command-while-reader-tears-down", []gateRule{{"W.active.recorded", "S.chansClosed"}}},
 			{"timer-between-check-and-send-at-teardown", []gateRule{{"T.checked", "S.chansClosed"}}},
 			{"command-routed-just-before-leave", []gateRule{{"W.top", "S.stopClosed"}}},
@@ -395,6 +396,31 @@ func init() {
 					close(held)
 					wg.Wait()
 					l.writeHold.Store(nil)
+				case "callers-give-up-while-their-commands-wait-behind-a-held-writer":
+					// the writer is parked for longer than the callers are willing to wait (time-out 50 ms + 1 s): they return by their
+					// own deadline; the released writer then still finds the commands in its queue and must cope with callers that left
+					join()
+					held := make(chan struct{})
+					var once atomic.Bool
+					hold := func(c int) {
+						if c == t.idx && !once.Swap(true) {
+							select {
+							case <-held:
+							case <-time.After(3 * time.Second):
+							}
+						}
+					}
+					l.writeHold.Store(&hold)
+					t.send(t.frame(0x0002, nil))
+					time.Sleep(10 * time.Millisecond)
+					for i := 0; i < 3; i++ {
+						call(t, key, 50*time.Millisecond, &wg)
+					}
+					wg.Wait() // all three gave up (about 1.05 s)
+					close(held)
+					l.writeHold.Store(nil)
+					time.Sleep(150 * time.Millisecond) // the writer works through the stale queue: writes, time-outs, nobody listening
+					t.close(false)
 				case "writer-holds-command-while-reader-tears-down", "command-routed-just-before-leave":
 					join()
 					call(t, key, 300*time.Millisecond, &wg)
